@@ -61,6 +61,8 @@ pub use crate::yaml_owned::{MappingOwned, SequenceOwned, YamlOwned, YamlOwnedIte
 
 #[cfg(feature = "encoding")]
 mod encoding;
+#[cfg(saphyr_verif)]
+pub mod verif_hooks;
 #[cfg(feature = "encoding")]
 pub use crate::encoding::{YAMLDecodingTrap, YAMLDecodingTrapFn, YamlDecoder};
 
